@@ -53,6 +53,9 @@ func provablyNonNilError(fn *ssa.Function, v ssa.Value, eAliases map[ssa.Value]b
 			if id == "errors.New" || id == "fmt.Errorf" || id == "github.com/massnetorg/mass-core/errors.New" {
 				return
 			}
+			if grpcStatusError(r) {
+				return // status.New(k != OK, …).Err(): non-nil by the library's contract
+			}
 			// a local failure helper that logs and hands the error back
 			if g := r.Call.StaticCallee(); g != nil && (g.Parent() != nil || gNewFuncs[g]) {
 				for i, a := range r.Call.Args {
